@@ -323,7 +323,7 @@ func TestVerif_C17_Multi(t *testing.T) {
 				backoffCalls = total
 				gate.WaitArrived(c17Done, backoffCalls, 5*time.Second)
 			}
-			ok := kit.Eventually(5*time.Second, func() bool {
+			kit.Eventually(5*time.Second, func() bool {
 				for k, e := range exp {
 					if get(k) < e {
 						return false
@@ -333,7 +333,7 @@ func TestVerif_C17_Multi(t *testing.T) {
 			})
 			time.Sleep(2 * time.Millisecond)
 			for k, e := range exp {
-				if g := get(k); g != e || !ok {
+				if g := get(k); g != e {
 					bad = fmt.Sprintf("after step %d (%s %s): message %s was retransmitted %d times, the specification says %d", si+1, s.Get("a").Str(), h, k, g, e)
 				}
 			}
